@@ -36,7 +36,8 @@ REQUIRED = dict(monitors=['deck-opaque-at-or-below-top', 'deck-zero-above', 'dec
                 classes=['retune:fault-before-evaluation', 'deck:inside', 'deck:above-range', 'deck:below-range', 'deck:on-layer-pressure',
                          'flat:set', 'flat:unset', 'flat:inverted', 'flat:outside', 'flat:below-1Pa',
                          'lee:set', 'lee:unset', 'lee:inverted', 'lee:outside', 'nlayers:2', 'retune:deck',
-                         'retune:flat', 'retune:lee', 'retune:evaluation-after-write', 'retune:pressure-range-written'])
+                         'retune:flat', 'retune:lee', 'retune:evaluation-after-write', 'retune:pressure-range-written',
+                         'retune:pressure-moved-by:array-refilled-in-place', 'retune:pressure-moved-by:fitting-parameters'])
 
 
 def classify(f):
@@ -59,6 +60,8 @@ def make_case(rng):
         spec['new_method'] = bool(rng.random() < 0.5)
         spec['cia_magnitude'] = spec['magnitude']
         spec['cia_seed'] = 0
+        if rng.random() < 0.2 and spec['nlayers'] >= 2:
+            spec['pressure_route'] = 'array'
         if world.is_bound(spec):
             return spec
     raise RuntimeError('generator could not draw a bound atmosphere')
@@ -329,8 +332,7 @@ def wl_retune(ctx, rng):
             if sp['pmax'] > 10 * sp['pmin'] and world.is_bound(sp):
                 spec = sp
                 for mdl in (model, clear_model):
-                    mdl['atm_max_pressure'] = spec['pmax']
-                    mdl['atm_min_pressure'] = spec['pmin']
+                    ctx.observe('retune:pressure-moved-by:' + world.move_pressure_range(mdl, spec['pmax'], spec['pmin']))
                 lev, lay = levels_of(spec)
                 lo, hi = np.log10(lev[-1]), np.log10(lev[0])
                 clear = base.run_model(ctx, clear_model, build=False)
